@@ -7,6 +7,8 @@
 //! alive (a drop-counting token planted in every worker's coroutine-local storage by a
 //! listener: created - dropped); once all tasks are finished or cancelled, `stop` returns
 //! promptly and the running size is 0.
+//! A second C11 sub-run drives two pools from one thread (c11two.rs): a worker stolen by the
+//! other pool's pass is counted where it runs.
 //! C12 oracle: observed states only move Running -> Stopping -> Stopped; a submit after stop
 //! began is rejected; every task accepted earlier and not cancelled has executed when stop
 //! reports success; a waiter for a task that never runs gets an error shortly after stop.
@@ -159,7 +161,16 @@ static HANGS_SEEN: AtomicU32 = AtomicU32::new(0);
 static MAX_WALL_MS: std::sync::atomic::AtomicU64 = std::sync::atomic::AtomicU64::new(0);
 
 /// every class label an outcome can carry (the child reports them by name)
-const CLASSES: [&str; 6] = ["cancel-while-suspended", "worker-died-by-panic", "max-size-reached", "submit-after-stop", "waiter-spans-stop", "waiter-held-before-registering"];
+const CLASSES: [&str; 8] = [
+    "cancel-while-suspended",
+    "worker-died-by-panic",
+    "max-size-reached",
+    "submit-after-stop",
+    "waiter-spans-stop",
+    "waiter-held-before-registering",
+    "stop-called-after-a-stop-that-timed-out",
+    "stop-called-on-a-stopped-pool",
+];
 
 pub fn exec(c: &Case, lifecycle: bool) -> Outcome {
     let serial = SERIAL.fetch_add(1, Ordering::SeqCst);
@@ -185,8 +196,23 @@ pub fn exec(c: &Case, lifecycle: bool) -> Outcome {
         cancelled: bool,
         accepted_before_stop: bool,
     }
+    fn stop_ok(tasks: &[T], o: &mut Outcome, at: &str, el: Duration, earlier_timeouts: u32) {
+        for (i, t) in tasks.iter().enumerate() {
+            if t.accepted_before_stop && !t.cancelled && !t.done.load(Ordering::SeqCst) {
+                o.set_fail(
+                    "C12/stop-reported-success-with-accepted-task-not-run",
+                    format!(
+                        "{at}: stop() returned Ok after {el:?} ({earlier_timeouts} earlier stop call(s) had timed out) but task #{i} ({:?}) accepted earlier has not finished (started: {})",
+                        t.body,
+                        t.ran.load(Ordering::SeqCst) > 0
+                    ),
+                );
+            }
+        }
+    }
     let mut tasks: Vec<T> = vec![];
     let mut o = Outcome::pass();
+    let (mut stop_timed_out, mut stop_again_on_stopped, mut stop_after_timeout) = (0u32, 0u32, 0u32);
     GATED.lock().unwrap().clear();
     GATE_OPEN.store(false, Ordering::SeqCst);
     GATE_HELD.store(0, Ordering::SeqCst);
@@ -325,8 +351,11 @@ pub fn exec(c: &Case, lifecycle: bool) -> Outcome {
                 waiters.push((i, h, Instant::now()));
             }
             Op::Stop | Op::StopShort(_) => {
+                // a stop on a pool that is already Stopped is a call like any other: it may
+                // report success only if every accepted task ran (seeded C12b: a timed-out stop
+                // that left the pool Stopped made the next stop() succeed)
                 if stop_started && pool.state() == PoolState::Stopped {
-                    continue;
+                    stop_again_on_stopped += 1;
                 }
                 stop_started = true;
                 let limit = if let Op::StopShort(ms) = *op { Duration::from_millis(u64::from(ms)) } else { Duration::from_secs(3) };
@@ -335,6 +364,9 @@ pub fn exec(c: &Case, lifecycle: bool) -> Outcome {
                 }
                 GATE_OPEN.store(true, Ordering::SeqCst); // held waiters go on and register now
                 std::thread::sleep(Duration::from_millis(2)); // let helper threads register
+                if stop_timed_out > 0 {
+                    stop_after_timeout += 1;
+                }
                 let t = Instant::now();
                 let r = pool.stop(limit);
                 let el = t.elapsed();
@@ -342,18 +374,9 @@ pub fn exec(c: &Case, lifecycle: bool) -> Outcome {
                 match r {
                     Ok(()) => {
                         stop_ok_at = Some(Instant::now());
-                        for (i, t) in tasks.iter().enumerate() {
-                            if t.accepted_before_stop && !t.cancelled && !t.done.load(Ordering::SeqCst) {
-                                o.set_fail(
-                                    "C12/stop-reported-success-with-accepted-task-not-run",
-                                    format!("op {k}: stop() returned Ok after {el:?} but task #{i} ({:?}) accepted earlier has not finished (started: {})", t.body, t.ran.load(Ordering::SeqCst) > 0),
-                                );
-                            }
-                        }
+                        stop_ok(&tasks, &mut o, &format!("op {k}"), el, stop_timed_out);
                     }
-                    Err(e) => {
-                        let _ = e;
-                    }
+                    Err(_) => stop_timed_out += 1,
                 }
             }
         }
@@ -426,6 +449,26 @@ pub fn exec(c: &Case, lifecycle: bool) -> Outcome {
             }
         }
     }
+    // a history whose stop calls all timed out ends with one generous stop: whatever the earlier
+    // calls left behind, success may be reported only once every accepted task has run
+    if lifecycle && o.fail.is_none() && stop_started && stop_ok_at.is_none() {
+        GATE_OPEN.store(true, Ordering::SeqCst);
+        stop_after_timeout += 1;
+        let t = Instant::now();
+        let r = pool.stop(Duration::from_secs(3));
+        let el = t.elapsed();
+        let st = pool.state();
+        if *states.last().unwrap() != st {
+            states.push(st);
+        }
+        if states.windows(2).any(|w| rank(&w[1]) < rank(&w[0])) {
+            o.set_fail("C12/state-moved-backwards", format!("observed states {states:?}"));
+        }
+        if r.is_ok() {
+            stop_ok_at = Some(Instant::now());
+            stop_ok(&tasks, &mut o, "final stop(3 s)", el, stop_timed_out);
+        }
+    }
     GATE_OPEN.store(true, Ordering::SeqCst);
     let late_waiter_held = GATE_HELD.load(Ordering::SeqCst) >= 1;
     // waiters must be settled shortly after stop returned
@@ -469,7 +512,7 @@ pub fn exec(c: &Case, lifecycle: bool) -> Outcome {
         let _ = std::panic::catch_unwind(std::panic::AssertUnwindSafe(move || drop(b)));
     }
     o.nontrivial = if lifecycle {
-        submit_after_stop >= 1 || waiter_spans_stop >= 1
+        submit_after_stop >= 1 || waiter_spans_stop >= 1 || stop_after_timeout >= 1
     } else {
         cancel_suspended >= 1 || worker_panics >= 1 || max_reached
     };
@@ -478,6 +521,8 @@ pub fn exec(c: &Case, lifecycle: bool) -> Outcome {
         .class_if(max_reached, "max-size-reached")
         .class_if(submit_after_stop >= 1, "submit-after-stop")
         .class_if(waiter_spans_stop >= 1, "waiter-spans-stop")
+        .class_if(stop_after_timeout >= 1, "stop-called-after-a-stop-that-timed-out")
+        .class_if(stop_again_on_stopped >= 1, "stop-called-on-a-stopped-pool")
         .class_if(late_waiter_held, "waiter-held-before-registering")
 }
 
@@ -558,18 +603,27 @@ pub fn exec_isolated(prop: &'static str, c: &Case) -> Outcome {
 fn main_for(args: &Args, prop: &'static str, lifecycle: bool) -> i32 {
     std::panic::set_hook(Box::new(|_| {}));
     if let Some(p) = &args.replay {
-        let (_, _, case) = vkit::load_replay(p);
+        let (_, sub, case) = vkit::load_replay(p);
+        if sub == "two-pools" {
+            return vkit::replay_verdict(prop, p, &super::c11two::exec_isolated(&serde_json::from_value(case).expect("case")));
+        }
         return vkit::replay_verdict(prop, p, &exec_isolated(prop, &serde_json::from_value(case).expect("case")));
     }
     let mut ev = Evidence::new(prop, args, "exploration");
     ev.assume("one pool alive per process: every history (generated, regression seed or replay) runs in a fresh child process, because all pools of a process share one work-stealing task queue and one coroutine queue and leftover work of one history would be run by the pool of the next");
     ev.assume("liveness of a worker coroutine is observed through a drop-counting token in its coroutine-local storage");
-    ev.add(vkit::run_regress(prop, move |_s, case| exec_isolated(prop, &serde_json::from_value(case).expect("case"))));
+    ev.add(vkit::run_regress(prop, move |s, case| {
+        if s == "two-pools" {
+            super::c11two::exec_isolated(&serde_json::from_value(case).expect("case"))
+        } else {
+            exec_isolated(prop, &serde_json::from_value(case).expect("case"))
+        }
+    }));
     if ev.has_violations() {
         return ev.finish();
     }
     let rule = if lifecycle {
-        "histories over {submit(body), pass, sleep, cancel, wait on a helper thread, stop} on a standalone pool (min/max/keep-alive generated), one fresh process per history; non-trivial = a submit after stop began, or a waiter registered before stop"
+        "histories over {submit(body), pass, sleep, cancel, wait on a helper thread, stop} on a standalone pool (min/max/keep-alive generated), one fresh process per history; non-trivial = a submit after stop began, or a waiter registered before stop, or a stop call made after an earlier stop call had timed out (every history whose stops all timed out ends with one stop(3 s))"
     } else {
         "histories over {submit(return|panic|delay|suspend|delay-then-panic), pass, sleep, cancel} on a standalone pool (max 1..6, min, keep-alive 0|5ms|forever), then drive to the end and stop, one fresh process per history; non-trivial = a task cancelled while suspended, or a worker died by panic, or max_size reached"
     };
@@ -578,6 +632,21 @@ fn main_for(args: &Args, prop: &'static str, lifecycle: bool) -> i32 {
         move || strategy(lifecycle),
         move |c| exec_isolated(prop, c),
     ));
+    if !lifecycle {
+        ev.add(vkit::run_prop(
+            &RunCfg {
+                property: prop,
+                sub: "two-pools",
+                rule: "two pools (max 1..6 each, keep-alive 0|5|20 ms) driven by one thread, so either pool's pass can pick up a worker the other created: histories over {submit to either pool (return|panic|delay|3x suspend|delay-then-panic), pass of either pool, sleep, cancel}, then both are driven to the end and stopped in turn, one fresh process per history; non-trivial = both pools used and a pass began while a started task was still unfinished",
+                seed: args.seed,
+                cases: args.cases(400, 8_000),
+                shards: 8,
+                max_shrink_iters: 200,
+            },
+            super::c11two::strategy,
+            super::c11two::exec_isolated,
+        ));
+    }
     ev.extra.insert("longest_history_wall_s".into(), json!(MAX_WALL_MS.load(Ordering::SeqCst) as f64 / 1000.0));
     ev.extra.insert("histories_that_hung".into(), json!(HANGS_SEEN.load(Ordering::SeqCst)));
     ev.finish()
